@@ -1012,7 +1012,7 @@ func stripAll(v ssa.Value) ssa.Value {
 func init() {
 	register(&propDef{
 		id:          "C14",
-		explanation: "Decides that encoder and decoder agree on the kind of every field on the wire: GRAMMAR reads the SSA control-flow graphs of GobEncode and GobDecode as NFAs over the tokens U (a varint: append of an encodeUint64 result / call of decodeUint64) and B (one raw byte: append of a single byte / ReadByte) and checks L(GobEncode) ⊆ L(GobDecode) by the subset construction, reporting the first token on which the product automaton is stuck; VARINT checks nine constant relations between encodeUint64 and decodeUint64 (single-byte threshold, prefix base, payload bound, total length, byte order, shift widths); OVERWRITE checks that GobDecode assigns every field of every node on every iteration of a loop, so a reused receiver keeps no stale state; FRESH also requires that GobDecode stores no memory of its input slice into the automaton (no zero-copy decode), and NARROWLEN that no length is converted to a type narrower than 64 bits without a proof that it fits (byte(len(links)) is 0 for 256 children). Blocks of raw bytes appended or read at once are a token of their own (S). GLOBAL: package dawg keeps no package-level state (no shared scratch buffer in the codec). Does not decide equality of words/ranks after a round trip.",
+		explanation: "Decides that encoder and decoder agree on the kind of every field on the wire: GRAMMAR reads the SSA control-flow graphs of GobEncode and GobDecode as NFAs over the tokens U (a varint: append of an encodeUint64 result / call of decodeUint64) and B (one raw byte: append of a single byte / ReadByte) and checks L(GobEncode) ⊆ L(GobDecode) by the subset construction, reporting the first token on which the product automaton is stuck; VARINT checks nine constant relations between encodeUint64 and decodeUint64 (single-byte threshold, prefix base, payload bound, total length, byte order, shift widths); OVERWRITE checks that GobDecode assigns every field of every node on every iteration of a loop, so a reused receiver keeps no stale state; FRESH also requires that GobDecode stores no memory of its input slice into the automaton (no zero-copy decode), and NARROWLEN that no length is converted to a type narrower than 64 bits without a proof that it fits (byte(len(links)) is 0 for 256 children). Blocks of raw bytes appended or read at once are a token of their own (S). GLOBAL: package dawg keeps no package-level state (no shared scratch buffer in the codec). Does not decide equality of words/ranks after a round trip. VISITONCE: in the depth-first walks of GobEncode and listNodesCountEdges a child is pushed on the work stacks only in the region dominated by the insertion into the sorted list of visited ids (recognised by its shift idiom copy(x[i+1:], x[i:])), i.e. only when it is seen for the first time; a push before the visited test leaves the frame of a seen child on the stack, shared nodes are walked once per path, and GobEncode of a small, wide Dawg does not return in any useful time.",
 		notDecided:  []string{"that the decoded automaton has the same words, ranks, node count and search results", "that re-encoding gives the same bytes", "that element counts on the wire match loop counts (regular approximation ignores counts)"},
 		assumptions: []string{"every byte of the output is appended through the recognised primitives (an unrecognised append to the output chain is 'undecided' and fails)"},
 		run: func(c *Ctx, tier string) []*RuleResult {
@@ -1044,7 +1044,12 @@ func init() {
 			// the codec keeps no package-level scratch: two decodes (or encodes) of different automata cannot meet
 			gl := ruleGlobalIn(c, "dawg")
 			gl.Doc = "no function of package dawg writes through, or hands out, a package-level variable (a shared varint buffer would be corrupted by concurrent decodes and would tie one result to the next call)"
-			return []*RuleResult{g, v, ow, fr, nl, gl}
+			vo := &RuleResult{Rule: "VISITONCE", Doc: "in the depth-first walks of GobEncode and listNodesCountEdges a child is pushed on the work stacks only on the side of the visited test on which it is recorded for the first time (a Dawg shares nodes: otherwise the walk is over paths, not nodes)", MinInst: 2}
+			ruleVisitOnce(c, vo, "(*dawg.Dawg).GobEncode")
+			if c.FnOpt("(*dawg.Dawg).listNodesCountEdges") != nil {
+				ruleVisitOnce(c, vo, "(*dawg.Dawg).listNodesCountEdges")
+			}
+			return []*RuleResult{g, v, ow, fr, nl, gl, vo}
 		},
 		controls: func(ctl *Ctx) []*RuleResult {
 			g := &RuleResult{Rule: "GRAMMAR"}
@@ -1064,7 +1069,10 @@ func init() {
 				f.Key += " (Good)"
 				ow.Findings = append(ow.Findings, f)
 			}
-			return []*RuleResult{g, ow}
+			vo := &RuleResult{Rule: "VISITONCE"}
+			ruleVisitOnce(ctl, vo, "(*visitctl.N).BadWalk")
+			ruleVisitOnce(ctl, vo, "(*visitctl.N).GoodWalk")
+			return []*RuleResult{g, ow, vo}
 		},
 	})
 }
